@@ -84,3 +84,33 @@ Proof.
       + rewrite IH by (intros y Hy; apply Hpre; now right). f_equal. lia. }
   apply G.
 Qed.
+
+(* ---- find_function_code *)
+(* the objects the search can reach: constants of the level, or of generic-parameter objects among them, and so on *)
+Inductive greach : list cobj -> cobj -> Prop :=
+  | gr_here level c : In c (next_consts level) -> greach level c
+  | gr_down level c : greach (filter co_generic (next_consts level)) c -> greach level c.
+
+(* what is found carries the name and is reachable through type-parameter scopes only: never a function nested in an
+   ordinary function (the decorated function's own nested function of the same name, seed C19-a) *)
+Theorem find_code_sound fuel : forall level name c, find_code fuel level name = Some c -> co_name c = name /\ greach level c.
+Proof.
+  induction fuel as [|k IH]; intros level name c H; [discriminate|].
+  cbn [find_code] in H. destruct level as [|l0 ls]; [discriminate|].
+  destruct (find (fun c => N.eqb (co_name c) name) (next_consts (l0 :: ls))) as [c0|] eqn:E.
+  - inversion H; subst c0. apply find_some in E as [Hin Hn]. apply N.eqb_eq in Hn. split; [exact Hn|now apply gr_here].
+  - destruct (IH _ _ _ H) as [Hn Hr]. split; [exact Hn|now apply gr_down].
+Qed.
+(* nearest to the top: a constant of the level with the name wins over anything deeper, and it is the first such *)
+Theorem find_code_top k level name c : level <> [] ->
+  find (fun c => N.eqb (co_name c) name) (next_consts level) = Some c -> find_code (S k) level name = Some c.
+Proof. intros Hne E. cbn [find_code]. destruct level; [congruence|]. now rewrite E. Qed.
+(* a function with type parameters: its code sits in the <generic parameters> object, one level down *)
+Theorem find_code_generic k m name g c :
+  find (fun c => N.eqb (co_name c) name) (co_consts m) = None ->
+  filter co_generic (co_consts m) = [g] ->
+  find (fun c => N.eqb (co_name c) name) (co_consts g) = Some c ->
+  find_code (S (S k)) [m] name = Some c.
+Proof.
+  intros E1 E2 E3. cbn [find_code next_consts flat_map]. rewrite app_nil_r, E1, E2. cbn [next_consts flat_map]. rewrite app_nil_r, E3. reflexivity.
+Qed.
